@@ -71,6 +71,20 @@ func psID(i int) hash.Event {
 	return h
 }
 
+// Long-lived strategy objects: the statement speaks about every selection on its own, so a strategy
+// object that has served earlier selections (other options, other metrics) must behave like a fresh
+// one.  Every second run of a case uses these shared objects (one per strategy slot) instead of
+// fresh ones; their metric function reads the metric table of the selection in progress.
+var psCurrentMetric func(hash.Event) ancestor.Metric
+var psShared []*ancestor.MetricStrategy
+
+func psSharedStrategy(slot int) *ancestor.MetricStrategy {
+	for len(psShared) <= slot {
+		psShared = append(psShared, ancestor.NewMetricStrategy(func(h hash.Event) ancestor.Metric { return psCurrentMetric(h) }))
+	}
+	return psShared[slot]
+}
+
 func psRun(c *psCase, run int, rnd *rand.Rand) (res []int, panicked string) {
 	defer func() {
 		if p := recover(); p != nil {
@@ -102,7 +116,10 @@ func psRun(c *psCase, run int, rnd *rand.Rand) (res []int, panicked string) {
 	}
 	strategies := make([]ancestor.SearchStrategy, len(c.Kinds))
 	for i, k := range c.Kinds {
-		if k == "metric" {
+		if k == "metric" && run%2 == 1 {
+			psCurrentMetric = metricFn
+			strategies[i] = psSharedStrategy(i)
+		} else if k == "metric" {
 			strategies[i] = ancestor.NewMetricStrategy(metricFn)
 		} else if (run+i)%4 == 3 {
 			strategies[i] = ancestor.NewRandomStrategy(rand.New(rand.NewSource(rnd.Int63())))
